@@ -10,8 +10,15 @@
 // the size classes of the edge-list nodes, so that the addresses of the edge properties — hence the order of
 // std::set<edge_descriptor> — differ between ranks.  The order actually obtained is what EORD reports.
 // All cases of one file run in ONE MPI job (amortises start-up; heaps also drift apart naturally from case to case).
+// Per-rank trace of the tree variants: the rank's stderr (fd 2) is redirected to <out prefix>.err.<r>; before every case the rank
+// writes "VERIF-CASE <index>" there, and the library's hook (pending/c04-hook-localmin.patch, guarded by PARMCB_VERIF, switched on
+// by PARMCB_VERIF_MPI_TRACE in the environment — set here) adds "VERIF-MPITREES CHUNK|SORTED|LOCAL ..." lines: the chunk the rank
+// received, its candidate vector after the sort, and its local minimum in every phase.  Without the hook only the markers appear.
 #include "../mcb_common.hpp"
 #include <fstream>
+#include <cstdlib>
+#include <fcntl.h>
+#include <unistd.h>
 #include <boost/mpi/environment.hpp>
 #include <boost/mpi/communicator.hpp>
 #include <boost/mpi/collectives.hpp>
@@ -93,9 +100,17 @@ int main(int argc, char **argv) {
     tbb::global_control gc(tbb::global_control::max_allowed_parallelism, (size_t) std::max(1, threads));
     std::ifstream in(argv[1]);
     std::ofstream of(std::string(argv[2]) + "." + std::to_string(world.rank()));
+    setenv("PARMCB_VERIF_MPI_TRACE", "1", 1);
+    {
+        std::string ef = std::string(argv[2]) + ".err." + std::to_string(world.rank());
+        int fd = ::open(ef.c_str(), O_WRONLY | O_CREAT | O_TRUNC, 0644);
+        if (fd >= 0) { ::dup2(fd, 2); ::close(fd); }
+    }
     std::string line;
+    size_t case_index = 0;
     while (std::getline(in, line)) {
         if (line.empty() || line[0] == '#') continue;
+        { std::ostringstream mk; mk << "VERIF-CASE " << case_index++ << "\n"; std::cerr << mk.str(); }
         std::ostringstream out;
         bool failed = false;
         try {
